@@ -1322,3 +1322,49 @@ Section TreeFault.
     destruct (Hv _ Hs E) as (? & ? & ?); auto.
   Qed.
 End TreeFault.
+
+(* ---------------------------------------------------------------------------------------- *)
+(* depth bounds derived from target_integration_time                                          *)
+(* ---------------------------------------------------------------------------------------- *)
+Lemma eff_maxdepth_le (M m : nat) (ms : option N) : (snd (eff_depths M m ms) <= M)%nat.
+Proof. destruct ms as [n|]; cbn [eff_depths snd]; lia. Qed.
+
+Lemma eff_none (M m : nat) : eff_depths M m None = (m, M).
+Proof. reflexivity. Qed.
+
+(* with room below maxdepth the tree may grow to ceil(log2 max_steps) and must reach floor(log2 max_steps) *)
+Lemma eff_depths_window (M m : nat) (n : N) :
+  (Nat.max (Nat.max (log2_ceil n) (Nat.max (log2_floor n) m)) 1 <= M)%nat ->
+  eff_depths M m (Some n) =
+  (Nat.max (log2_floor n) m, Nat.max (Nat.max (log2_ceil n) (Nat.max (log2_floor n) m)) 1).
+Proof. intros H; cbn [eff_depths]; f_equal; lia. Qed.
+
+Lemma eff_maxdepth_pos (M m : nat) (ms : option N) : (1 <= M -> 1 <= snd (eff_depths M m ms))%nat.
+Proof. destruct ms as [n|]; cbn [eff_depths snd]; lia. Qed.
+
+(* the old derivation could leave no room for a single step *)
+Lemma eff_depths_old_stuck : exists (M m : nat) (n : N), (1 <= M)%nat /\ snd (eff_depths_old M m (Some n)) = 0%nat.
+Proof. exists 3%nat, 0%nat, 1%N. split; [lia | reflexivity]. Qed.
+
+Lemma T2_depth_target :
+  forall (wt : Z -> Q) (turn : Z -> Z -> bool) (bad fatal : Z -> bool) (o : nopts) (ms : option N) (a : Z)
+         (ticks : list Z) (r : dres),
+    n_extra o = 0%nat ->
+    outcome (pdraw wt turn bad fatal (eff_opts o ms) a) ticks r -> d_err r = None ->
+    (d_depth r <= n_maxdepth o)%nat.
+Proof.
+  intros wt turn bad fatal o ms a ticks r He Ho Hr.
+  pose proof (T2_depth wt turn bad fatal (eff_opts o ms) a ticks r He Ho Hr) as H.
+  cbn [eff_opts n_maxdepth] in H. pose proof (eff_maxdepth_le (n_maxdepth o) (n_mindepth o) ms). lia.
+Qed.
+
+Lemma T4_at_least_one_target :
+  forall (wt : Z -> Q) (turn : Z -> Z -> bool) (bad fatal : Z -> bool) (o : nopts) (ms : option N) (a : Z)
+         (ticks : list Z) (r : dres),
+    (1 <= n_maxdepth o)%nat -> n_dim0 o = false ->
+    outcome (pdraw wt turn bad fatal (eff_opts o ms) a) ticks r -> (1 <= length ticks)%nat.
+Proof.
+  intros wt turn bad fatal o ms a ticks r Hm Hd Ho.
+  apply (T4_at_least_one wt turn bad fatal (eff_opts o ms) a ticks r); [|exact Hd|exact Ho].
+  cbn [eff_opts n_maxdepth]. apply eff_maxdepth_pos; exact Hm.
+Qed.
